@@ -666,3 +666,34 @@ fn c15_handle_request_rotates_lazily() {
     core::mem::forget(table);
 }
 }
+
+// =============================================================================================
+// C20 / C04: Server::new sizes every store as configured
+// =============================================================================================
+fn fill_const2(dest: &mut [u8]) -> Result<(), getrandom::Error> {
+    dest.fill(3);
+    Ok(())
+}
+
+#[kani::proof]
+#[kani::unwind(4)]
+#[kani::stub(std::time::Instant::now, clock2::mock_now)]
+#[kani::stub(getrandom::fill, fill_const2)]
+fn c20_server_new_sizes_every_store_as_configured() {
+    let (h, p, i, m): (usize, usize, usize, usize) = (kani::any(), kani::any(), kani::any(), kani::any());
+    kani::assume(h <= 5000 && p <= 5000 && i <= 5000 && m <= 5000);
+    let s = Server::new(ServerSettings { max_info_hashes: h, max_peers_per_info_hash: p, max_immutable_values: i, max_mutable_values: m, filter: Box::new(GhostFilter) });
+    let want = |x: usize, d: usize| if x == 0 { d } else { x };
+    assert!(s.mutable_values.cap().get() == want(m, MAX_VALUES), "C20/C04: the mutable store holds at most max_mutable_values items");
+    assert!(s.immutable_values.cap().get() == want(i, MAX_VALUES), "C20: the immutable store holds at most max_immutable_values items");
+    assert!(peers::verif_kani::caps(&s.peers) == (want(h, MAX_INFO_HASHES), want(p, MAX_PEERS)), "C20: peers: (info hashes, peers per info hash) as configured");
+    assert!(signed_peers::verif_kani::caps(&s.signed_peers) == (want(h, MAX_INFO_HASHES), want(p, MAX_PEERS)), "C20: signed peers: (info hashes, peers per info hash) as configured, not swapped");
+    kani::cover!(h == 1 && p == 2);
+    kani::cover!(m == 0);
+    core::mem::forget(s);
+}
+
+mod clock2 {
+    include!("/verif/harness/support.rs");
+    pub use clock::mock_now;
+}
